@@ -107,6 +107,12 @@ template<unsigned M> void partsym_op (const std::string& op, Args& A, Out& O)
   else { Rat var=A.rat(); auto cv=A.vec<M>(); auto cm=A.mat<M,M>(); Matrix<M+1,M+1,Rat> m; compose (m, var, cv, cm); O.put (m); }
 }
 
+// requests made during static initialisation of the caller (this translation unit precedes the library on the link line, so
+// its dynamic initialisers run before the library's own): a static object that precomputes the Dirac basis in its constructor
+struct early_dirac { Dirac::type m[4][4]; early_dirac () { for (unsigned i=0;i<4;i++) for (unsigned j=0;j<4;j++) m[i][j] = Dirac::matrix (i, j); } };
+static early_dirac g_early_dirac;
+static const Dirac::type g_early_one = Dirac::matrix (1, 2);
+
 int main ()
 {
   OpTable ops;
@@ -162,6 +168,11 @@ int main ()
   OP("dirac") { unsigned i=A.nat(); unsigned j=A.nat(); Dirac::type d = Dirac::matrix (i,j);
     for (unsigned r=0;r<4;r++) for (unsigned c=0;c<4;c++) { O.put (Rat(d[r][c].real())); O.put (Rat(d[r][c].imag())); } };
 
+  // oracle: the Dirac matrices requested before main (see g_early_dirac) against the same requests made now.  Output: entries that differ
+  OP("o.c13.earlydirac") { long bad = 0; for (unsigned i=0;i<4;i++) for (unsigned j=0;j<4;j++) { Dirac::type now = Dirac::matrix (i, j);
+      for (unsigned r=0;r<4;r++) for (unsigned c=0;c<4;c++) if (!(now[r][c] == g_early_dirac.m[i][j][r][c])) bad++; }
+    { Dirac::type now = Dirac::matrix (1, 2); for (unsigned r=0;r<4;r++) for (unsigned c=0;c<4;c++) if (!(now[r][c] == g_early_one[r][c])) bad++; }
+    O.put (Rat (bad)); };
   // ---- C14: rotation(axis, radians); the model receives sin/cos as leaves ----
   OP("rotation") { auto v=A.vec<3>(); double rad = hexdouble (A.next()); A.next(); A.next(); O.put (rotation (v, rad)); };
   OP("rotation.apply") { auto v=A.vec<3>(); double rad = hexdouble (A.next()); A.next(); A.next(); auto x=A.vec<3>();
